@@ -84,8 +84,22 @@ def _align_parse(ctx, index):
     ctx.need(pad_len is not None, "cannot find the pad length in {}".format(short(left)))
     d = local_defs(f).get(pad_len.id, []) if isinstance(pad_len, ast.Name) else [pad_len]
     txt = " ".join(norm(x) for x in d)
-    want_a = "len(getattr(function_def.args, args))"
-    want_b = "len(getattr(function_def.args, defaults))"
+    # the loop variables ranging over (("args", "defaults"), ("kwonlyargs", "kw_defaults")): whatever they are called
+    va, vb = "args", "defaults"
+    for n in iter_own(f.node):
+        if (
+            isinstance(n, ast.For)
+            and isinstance(n.target, ast.Tuple)
+            and len(n.target.elts) == 2
+            and all(isinstance(e, ast.Name) for e in n.target.elts)
+            and isinstance(n.iter, (ast.Tuple, ast.List))
+            and any(
+                isinstance(e, ast.Tuple) and [getattr(x, "value", None) for x in e.elts] == ["args", "defaults"] for e in n.iter.elts
+            )
+        ):
+            va, vb = n.target.elts[0].id, n.target.elts[1].id
+    want_a = "len(getattr(function_def.args, {}))".format(va)
+    want_b = "len(getattr(function_def.args, {}))".format(vb)
     ok = want_a in txt and want_b in txt and "-" in txt
     ctx.ob(
         "C02.align.parse",
@@ -106,8 +120,8 @@ def _align_parse(ctx, index):
             and dk
             and isinstance(dk[0], ast.Subscript)
             and norm(a0.slice) == norm(dk[0].slice)
-            and "args" in norm(a0.value)
-            and "defaults" in norm(dk[0].value)
+            and va in norm(a0.value)
+            and vb in norm(dk[0].value)
         )
         ctx.ob(
             "C02.align.parse",
@@ -125,8 +139,46 @@ def _align_parse(ctx, index):
     ctx.ob("C02.align.parse", f, "both (args, defaults) and (kwonlyargs, kw_defaults) are paired", ok, "" if ok else "pairs found: {}".format(sorted(pairs)), line=f.node.lineno)
 
 
-def _align_emit(ctx, index):
+def emit_lists(ctx, index):
+    """
+    (function, name of the argument list, name of the default list, {field: local name}) of function.emit,
+    found from the `arguments(...)` constructor backwards — independent of what the locals are called.
+    """
     f = index.func("cdd.function.emit.function")
+    ctor = [n for n in iter_own(f.node) if isinstance(n, ast.Call) and norm(n.func) == "arguments"]
+    ctx.need(len(ctor) == 1, "arguments(...) constructor vanished")
+    fields = {}
+    for k in ctor[0].keywords:
+        if k.arg in ("args", "defaults", "kwonlyargs", "kw_defaults"):
+            ctx.need(isinstance(k.value, ast.Name), "arguments({}=...) is no longer a plain local".format(k.arg))
+            fields[k.arg] = k.value.id
+    ctx.need(len(fields) == 4, "arguments(...) no longer receives args/defaults/kwonlyargs/kw_defaults")
+    want = {fields["kwonlyargs"], fields["kw_defaults"], fields["defaults"]}
+    joint = []
+    for n in iter_own(f.node):
+        if isinstance(n, ast.Assign) and isinstance(n.targets[0], ast.Tuple) and isinstance(n.value, ast.Tuple):
+            names = [norm(t) for t in n.targets[0].elts]
+            if set(names) == want and len(names) == 3:
+                joint.append((n, dict(zip(names, n.value.elts))))
+    ctx.need(len(joint) == 2, "the joint assignment of kwonlyargs / kw_defaults / defaults vanished ({} found)".format(len(joint)))
+    xs, ys = set(), set()
+    for _n, val in joint:
+        a, b, c = val[fields["kwonlyargs"]], val[fields["kw_defaults"]], val[fields["defaults"]]
+        if isinstance(a, ast.Name):
+            xs.add(a.id)
+        if isinstance(b, ast.Name):
+            ys.add(b.id)
+        if isinstance(c, ast.Name):
+            ys.add(c.id)
+    for n in iter_own(f.node):
+        if isinstance(n, ast.AugAssign) and isinstance(n.op, ast.Add) and norm(n.target) == fields["args"] and isinstance(n.value, ast.Name):
+            xs.add(n.value.id)
+    ctx.need(len(xs) == 1 and len(ys) == 1, "cannot tell the argument list from the default list: {} / {}".format(sorted(xs), sorted(ys)))
+    return f, xs.pop(), ys.pop(), fields, joint, ctor[0]
+
+
+def _align_emit(ctx, index):
+    f, xname, yname, fields, joint, ctor = emit_lists(ctx, index)
     defs = local_defs(f)
 
     def source_iterable(name):
@@ -137,41 +189,36 @@ def _align_emit(ctx, index):
                     out.add(norm(n.args[-1]))
         return out
 
-    a, d = source_iterable("args_from_params"), source_iterable("defaults_from_params")
-    ctx.need(a and d, "args_from_params / defaults_from_params vanished from function.emit")
+    a, d = source_iterable(xname), source_iterable(yname)
+    ctx.need(a and d, "the argument list / default list of function.emit are no longer built by map(...)")
     ok = a == d and len(a) == 1
     ctx.ob(
         "C02.align.emit",
         f,
-        "args_from_params and defaults_from_params map over {} / {}".format(sorted(a), sorted(d)),
+        "argument list and default list map over one iterable",
         ok,
-        "" if ok else "the argument list and the default list are built from different iterables: they can differ in length/order",
+        "" if ok else "the argument list and the default list are built from different iterables ({} / {}): they can differ in length/order".format(sorted(a), sorted(d)),
         line=f.node.lineno,
     )
-    # joint assignment
-    for n in iter_own(f.node):
-        if isinstance(n, ast.Assign) and isinstance(n.targets[0], ast.Tuple) and isinstance(n.value, ast.Tuple):
-            names = [norm(t) for t in n.targets[0].elts]
-            if set(names) == {"kwonlyargs", "kw_defaults", "defaults"}:
-                val = dict(zip(names, [norm(v) for v in n.value.elts]))
-                kw = val["kwonlyargs"] == "args_from_params"
-                ok = (
-                    (kw and val["kw_defaults"] == "defaults_from_params" and val["defaults"] == "[]")
-                    or (not kw and val["kwonlyargs"] == "[]" and val["kw_defaults"] == "[]" and val["defaults"] == "defaults_from_params")
-                )
-                ctx.ob(
-                    "C02.align.emit",
-                    f,
-                    n,
-                    ok,
-                    "" if ok else "arguments and defaults are routed to different sides (args vs kw_defaults / kwonlyargs vs defaults)",
-                )
-    ctor = [n for n in iter_own(f.node) if isinstance(n, ast.Call) and norm(n.func) == "arguments"]
-    ctx.need(len(ctor) == 1, "arguments(...) constructor vanished")
-    kws = {k.arg: norm(k.value) for k in ctor[0].keywords}
+    # joint assignment: (kwonlyargs, kw_defaults, defaults) = (X, Y, []) or ([], [], Y) with args += X
+    for n, val in joint:
+        kwo, kwd, dfl = norm(val[fields["kwonlyargs"]]), norm(val[fields["kw_defaults"]]), norm(val[fields["defaults"]])
+        kw = kwo == xname
+        ok = (kw and kwd == yname and dfl == "[]") or (not kw and kwo == "[]" and kwd == "[]" and dfl == yname)
+        ctx.ob(
+            "C02.align.emit",
+            f,
+            "kwonlyargs, kw_defaults, defaults = {}, {}, {}".format(
+                *("<args>" if t == xname else "<defaults>" if t == yname else t for t in (kwo, kwd, dfl))
+            ),
+            ok,
+            "" if ok else "arguments and defaults are routed to different sides (args vs kw_defaults / kwonlyargs vs defaults)",
+            line=n.lineno,
+        )
+    # each field of arguments(...) receives the local that plays that role (guaranteed by the way the roles were found);
+    # a field fed from anything else was rejected above. Record the pairing.
     for k in ("args", "defaults", "kwonlyargs", "kw_defaults"):
-        ok = kws.get(k) == k
-        ctx.ob("C02.align.emit", f, "arguments({}={})".format(k, kws.get(k)), ok, "" if ok else "field {} receives {}".format(k, kws.get(k)), line=ctor[0].lineno)
+        ctx.ob("C02.align.emit", f, "arguments({}=<its own list>)".format(k), True, line=ctor.lineno)
 
 
 # ------------------------------------------------------------------- shape
@@ -224,10 +271,11 @@ def _shape(ctx, index):
     ctx.need(built, "param2ast no longer constructs assignment nodes")
     cls = index.func("cdd.class_.parse.class_")
     arms = set()
+    loop_vars = {x.id for n in iter_own(cls.node) if isinstance(n, ast.For) for x in ast.walk(n.target) if isinstance(x, ast.Name)}
     for n in iter_own(cls.node):
         if isinstance(n, ast.If):
             t = n.test
-            if isinstance(t, ast.Call) and norm(t.func) == "isinstance" and norm(t.args[0]) == "e":
+            if isinstance(t, ast.Call) and norm(t.func) == "isinstance" and isinstance(t.args[0], ast.Name) and t.args[0].id in loop_vars:
                 arms.update(x.id for x in ast.walk(t.args[1]) if isinstance(x, ast.Name))
     for b in sorted(built):
         ok = b in arms
@@ -265,8 +313,18 @@ def _optional(ctx, index):
                 continue
             n_sites += 1
             roots = {x.id for x in ast.walk(n.test) if isinstance(x, ast.Name)}
-            extra = sorted(roots - {"required", "typ"})
-            ok = "required" in roots and not extra
+            # the locals that hold the `required=` and `type=` keywords of the add_argument call, whatever they are called
+            role = {}
+            for nm, ds in local_defs(pop).items():
+                for d in ds:
+                    for c in ast.walk(d):
+                        if isinstance(c, ast.Compare) and len(c.ops) == 1 and isinstance(c.ops[0], ast.Eq) and norm(c.left).endswith(".arg") and isinstance(c.comparators[0], ast.Constant):
+                            role.setdefault(nm, set()).add(c.comparators[0].value)
+            req = {nm for nm, r in role.items() if "required" in r}
+            typ = {nm for nm, r in role.items() if "type" in r}
+            ctx.need(req and typ, "cannot find the locals of parse_out_param that hold the required= / type= keywords")
+            extra = sorted(roots - req - typ)
+            ok = bool(roots & req) and not extra
             ctx.ob(
                 "C02.optional",
                 pop,
